@@ -5,13 +5,13 @@ import vlib
 from vlib import log, Check, SEED
 
 
-def em_cfg(name, spec, n, c, buscap, bypass, inv='Ordered Lossless', props='', deadlock=False):
+def em_cfg(name, spec, n, c, buscap, bypass, inv='Ordered Lossless', props='', deadlock=False, stall=None):
     return (name, '''SPECIFICATION %s
-CONSTANTS N = %d  C = %d  BusCap = %d  Bypass = %s
+CONSTANTS N = %d  C = %d  BusCap = %d  Bypass = %s%s
 INVARIANTS %s
 %s
 CHECK_DEADLOCK FALSE
-''' % (spec, n, c, buscap, 'TRUE' if bypass else 'FALSE', inv, ('PROPERTIES ' + props) if props else ''))
+''' % (spec, n, c, buscap, 'TRUE' if bypass else 'FALSE', ('  Stall = %d' % stall) if stall is not None else '', inv, ('PROPERTIES ' + props) if props else ''))
 
 
 def c16(prop, tier):
@@ -26,18 +26,20 @@ def c16(prop, tier):
     ck.require_model_ok(r, 'Emitter capacity 16')
     # (b) adversarial schedule: TLC's counterexample for the unrepaired variant, restricted to forcible schedules
     bs = []
-    r = vlib.tlc_check('SimEmitter.tla', em_cfg('Emitter.bypass.cfg', 'SimSpec', 19, 16, 16, True, inv='Ordered'), 'C16-bypass')
+    r = vlib.tlc_check('SimEmitter.tla', em_cfg('Emitter.bypass.cfg', 'SimSpec', 19, 16, 16, True, inv='Ordered', stall=0), 'C16-bypass')
     ck.add_tlc(r, 'Emitter with bypass (mutant specification)')
     if r.get('violated') == 'Ordered' and r.get('trace'):
         bs.append({'id': 'bypass-counterexample', 'steps': r['trace']})
     else:
         ck.inconclusive.append('mutant specification (Bypass) not refuted by TLC: vacuity guard failed')
-    sims, _ = vlib.tlc_simulate('SimEmitter.tla', em_cfg('Emitter.sim.cfg', 'SimSpec', 20, 16, 16, False), 'C16-sim',
-                                120 if thorough else 30, 90, SEED)
-    bs += sims
+    # free pacing, and a reader that stalls until the 16-slot channel has overflowed
+    for k, stall in enumerate((0, 17, 18)):
+        sims, _ = vlib.tlc_simulate('SimEmitter.tla', em_cfg('Emitter.sim.cfg', 'SimSpec', 20, 16, 16, False, stall=stall), 'C16-sim%d' % k,
+                                    (120 if thorough else 14), 110, SEED + k)
+        bs += sims
     for b in bs:
         for st in b['steps']:
-            st['action'] = {'SPlace': 'Place'}.get(st['action'], st['action'])
+            st['action'] = {'SPlace': 'Place', 'SRead': 'Read'}.get(st['action'], st['action'])
     for b in bs:
         if any(len(s['state'].get('q', [])) > 0 for s in b['steps']):
             ck.distinct.add(vlib.beh_signature(b))
